@@ -1,10 +1,15 @@
-// Shared helpers of the C15 harnesses (c15.cpp, c15b.cpp): op-line parsing, dataset
-// construction with an explicit batch partition, exact output, FE_INEXACT window.
+// Shared helpers of the C15 harnesses (c15.cpp, c15b.cpp, c15c.cpp): op-line parsing, dataset
+// construction with an explicit batch partition, exact output, FE_INEXACT window, and the
+// protocol loop.  A line is one op -- executed on freshly constructed trainer / model
+// objects -- or a HISTORY `op ; op ; ... ; op`: the steps are executed one after the other
+// on the SAME trainer, model and output objects (a `Session`), the observation line is
+// `obs ;; obs ;; ... ;; obs`.  Every step of a history must give what a fresh object gives.
 #ifndef VERIF_HARNESS_C15_COMMON_HPP
 #define VERIF_HARNESS_C15_COMMON_HPP
 #include "common.hpp"
 #include <cfenv>
 #include <cstdlib>
+#include <memory>
 #include <shark/Data/Dataset.h>
 #include <shark/Data/WeightedDataset.h>
 
@@ -125,6 +130,43 @@ template<class VA, class VB> bool closeVec(VA const& a, VB const& b, double tol)
 	}
 	for(std::size_t i = 0; i < a.size(); ++i) if(!close(a(i), b(i), tol, 1.0 + scale)) return false;
 	return true;
+}
+
+// bit-for-bit comparison of a result of re-used objects with the result of fresh objects (same
+// input, same code path: any difference is state that leaked from the earlier steps)
+template<class VA, class VB> bool sameVec(VA const& a, VB const& b){
+	if(a.size() != b.size()) return false;
+	for(std::size_t i = 0; i < a.size(); ++i) if(!(a(i) == b(i)) && !(std::isnan(a(i)) && std::isnan(b(i)))) return false;
+	return true;
+}
+template<class MA, class MB> bool sameMat(MA const& a, MB const& b){
+	if(a.size1() != b.size1() || a.size2() != b.size2()) return false;
+	for(std::size_t i = 0; i < a.size1(); ++i) for(std::size_t j = 0; j < a.size2(); ++j)
+		if(!(a(i, j) == b(i, j)) && !(std::isnan(a(i, j)) && std::isnan(b(i, j)))) return false;
+	return true;
+}
+
+// protocol loop; `dispatch(opname, args, session)` with session == 0 for a single op
+template<class Session, class Dispatch>
+int runProtocol(Dispatch dispatch){
+	std::string line;
+	while(std::getline(std::cin, line)){
+		std::vector<std::string> t = vh::tokens(line);
+		if(t.empty()){ std::cout << "@ \n"; continue; }
+		std::vector<std::vector<std::string> > steps(1);
+		for(std::size_t i = 0; i < t.size(); ++i){ if(t[i] == ";") steps.push_back(std::vector<std::string>()); else steps.back().push_back(t[i]); }
+		std::unique_ptr<Session> S; if(steps.size() > 1) S.reset(new Session());
+		std::string res;
+		for(std::size_t k = 0; k < steps.size(); ++k){
+			Args A; std::string r;
+			if(steps[k].empty() || !allInt(steps[k], 1, A.a)) r = "bad-op";
+			else r = dispatch(steps[k][0], A, S.get());
+			if(k) res += " ;; ";
+			res += r;
+		}
+		std::cout << "@ " << res << std::endl;   // "@ " marks protocol lines (BLAS may print warnings to stdout)
+	}
+	return 0;
 }
 }
 #endif
